@@ -177,8 +177,9 @@ def build(tier, repo):
 
     r4 = chk.rule("C15-R4", "negative-index wrap uses the dimension the index was range-checked against; indices not narrowed before the check",
                   "indexing raises IndexError exactly where the model has no answer and addresses the right element otherwise")
-    n = cd.index_pairing_rule(r4, c, ["matrix_subscr", "matrix_ass_subscr"])
-    cd.narrowing_rule(r4, c, ["matrix_subscr", "matrix_ass_subscr", "create_indexlist"])
+    # every function of dense.c that wraps an index (not a list of names: a renamed or split function stays covered)
+    n = cd.index_pairing_rule(r4, c, list(c.order))
+    cd.narrowing_rule(r4, c, list(c.order))
     chk.note_analysed("CWRAP_sites", n)
     r4.require(10)
 
